@@ -53,6 +53,12 @@ FIRST = {  # what happened on the FIRST run against each change, before any stre
     "C18_r3_a": "missed (all binding names were 1 character) -> names longer than the bus tag; patch re-based after fix 8b8cbc4",
     "C18_r3_b": "missed (one Decode per Can object) -> a foreign frame with the same id is decoded first on the same object",
     "C20_r3_a": "missed (no module file next to a same-named directory) -> tree plans",
+    "C12_r4_c": "would have been missed (the reference was derived from the parsed tree, so what the parser drops was invisible; no template interleaved fields and signal blocks) -> hand-written source expectation per template, interleaved binding added before the run",
+    "C20_r4_c": "would have been missed (no module file began with a comment) -> comment/blank-line headers added before the run",
+    "C04_r4_c": "would have been missed (the two-call history laid out another binding second, not the same one) -> same binding laid out again by the same and by a new encoder, added before the run",
+    "C18_r4_c": "would have been missed (no bus names differing only in case) -> family entry added before the run",
+    "C09_r4_c": "would have been missed (binding skeletons had no enum) -> bind_enum skeleton added before the run",
+    "C13_r4_c": "would have been missed (no two containers of containers agreeing on their outer levels) -> schema added before the run",
     "C05_2": "would have been missed (no plain signal named like an earlier binding's multiplexer) -> schema added before the run",
 }
 
